@@ -8,6 +8,7 @@ import StyluaModel.Lemmas.Block
 import StyluaModel.Lemmas.SortReq
 import StyluaModel.Lemmas.Paren
 import StyluaModel.Lemmas.Trivia
+import StyluaModel.Lemmas.TriviaIdem
 import StyluaModel.Lemmas.ParenIdem
 import StyluaModel.Model.Table
 
@@ -68,6 +69,24 @@ theorem C06_comment_text (t : List Char) (h : TriviaLemmas.noLoneCR t = true) :
   refine ⟨TriviaLemmas.trimEnd_idem t, ?_⟩
   simp only [Trivia.fmtText, StrLit.rewriteLong, TriviaLemmas.lfToEol_lf]
   exact TriviaLemmas.crlfToLf_noCR _ (TriviaLemmas.noCR_crlfToLf t h)
+
+/-- **leading trivia**: `load_token_trivia` applied to its own output (as the tokenizer reads it back: a line
+ending is whitespace with a newline, indentation whitespace without one) returns that output - runs of blank
+lines collapse to one and stay one, a comment's own line ending is not counted as a blank line the second time,
+nothing accumulates; for trivia lists of any length whose comment texts are already normalised (which the
+first pass ensures: `C06_comment_text`) -/
+theorem C06_trivia (eol : List Char) (t : List Trivia.Triv) (h : TriviaIdem.FixTexts eol t) :
+    Trivia.load eol .leading (TriviaIdem.relex (Trivia.load eol .leading t)) = Trivia.load eol .leading t :=
+  TriviaIdem.load_idem eol t h
+
+example : TriviaIdem.FixTexts ['\n'] [.ws true, .ws true, .ws true, .comment .line ['c'], .ws true, .ws true,
+      .comment (.block 0) ['b'], .ws false] ∧
+    Trivia.load ['\n'] .leading [.ws true, .ws true, .ws true, .comment .line ['c'], .ws true, .ws true,
+      .comment (.block 0) ['b'], .ws false] =
+      [.newline, .indent, .comment .line ['c'], .newline, .newline, .indent, .comment (.block 0) ['b'], .newline] := by
+  refine ⟨?_, by decide⟩
+  simp only [TriviaIdem.FixTexts]
+  decide
 
 /-- **tables: a multi-line table stays multi-line** (its `{` is followed by a newline), whatever the
 width, the position and the size of its content -/
